@@ -159,6 +159,44 @@ RawHull(f, a, bnd) ==
   FoldSet(LAMBDA i, acc : HullAdd(acc, IF ts[i].ids = <<>> THEN Point(RMul(a, ts[i].c)) ELSE HullScale(MonoHull(ts[i].ids, bnd), RMul(a, ts[i].c))),
           Point(Zero), DOMAIN ts)
 
+\* ---------------------------------------------------------------- constructive references of the id-creating calls
+\* (the judge's clauses for log_encode and the slack conversions are relational; these operators are ONE implementation
+\*  satisfying them, used by the state machine MC_InstSM to explore histories in which those calls are interleaved
+\*  with the other transformations)
+MaxVarId(I) == CHOOSE m \in DOMAIN I.vars : \A v \in DOMAIN I.vars : v <= m
+RECURSIVE Pow2(_)
+Pow2(k) == IF k = 0 THEN 1 ELSE 2 * Pow2(k - 1)
+RECURSIVE Bits(_,_)
+Bits(width, k) == IF Pow2(k) >= width + 1 THEN k ELSE Bits(width, k + 1)        \* ceil(log2(width+1))
+RefCoefs(width) == LET nb == Bits(width, 0) IN [ i \in 1..nb |-> IF i = nb THEN width - Pow2(i - 1) + 1 ELSE Pow2(i - 1) ]
+NewVar(kind, b, name, subs) == [kind |-> kind, bound |-> << b >>, fixed |-> <<>>, meta |-> [name |-> <<name>>, subs |-> subs, params |-> <<>>, desc |-> <<>>]]
+CanEncode(I, v) == /\ v \in DOMAIN I.vars /\ I.vars[v].kind = "integer" /\ I.vars[v].bound # <<>>
+                   /\ IsFin(I.vars[v].bound[1].lo) /\ IsFin(I.vars[v].bound[1].hi)
+                   /\ RCeil(I.vars[v].bound[1].lo) <= RFloor(I.vars[v].bound[1].hi)
+\* [inst |-> I with the bit variables registered, enc |-> the linear expression, bits |-> their ids]
+LogEncodeRef(I, v) ==
+  LET b == I.vars[v].bound[1]  lo == RCeil(b.lo)  w == RFloor(b.hi) - lo
+      cs == IF w = 0 THEN <<>> ELSE RefCoefs(w)  base == MaxVarId(I) + 1
+      ids == { base + i - 1 : i \in DOMAIN cs } IN
+  [ inst |-> [I EXCEPT !.vars = [ x \in DOMAIN @ \cup ids |-> IF x \in ids THEN NewVar("binary", [lo |-> Zero, hi |-> One], "ommx.log_encode", <<v, x - base>>) ELSE @[x] ]],
+    enc  |-> Canon(<< [ids |-> <<>>, c |-> R(lo)] >> \o [ i \in DOMAIN cs |-> [ids |-> << base + i - 1 >>, c |-> R(cs[i])] ]),
+    bits |-> ids ]
+\* f(x) <= 0  ~>  f(x) + s/a = 0,  s integer in [0, -L],  a the content factor, [L, U] the integer hull of a*f over the box
+SlackBox(I) == [ x \in DOMAIN I.vars |-> EffBound(I.vars[x]) ]
+CanSlack(I, c) == /\ c \in I.active /\ I.cons[c].eq = "le"
+                  /\ \A x \in Ids(I.cons[c].f) : I.vars[x].kind \in {"integer", "binary"}
+SlackHull(I, c) == LET f == I.cons[c].f  a == ContentFactor({ f[m] : m \in DOMAIN f }) IN
+                   [a |-> a, h |-> NatHull(PScale(f, a), SlackBox(I))]
+\* outcome: "infeasible" | "relaxed" (always holds: moved to removed) | "converted"
+SlackConvertRef(I, c) ==
+  LET sh == SlackHull(I, c)  s == MaxVarId(I) + 1 IN
+  IF IsFin(sh.h.lo) /\ RCeil(sh.h.lo) > 0 THEN [tag |-> "infeasible", inst |-> I]
+  ELSE IF IsFin(sh.h.hi) /\ RFloor(sh.h.hi) <= 0 THEN [tag |-> "relaxed", inst |-> Relax(I, c, "convert_inequality_to_equality_with_integer_slack", <<>>)]
+  ELSE IF ~IsFin(sh.h.lo) THEN [tag |-> "unbounded", inst |-> I]
+  ELSE [tag |-> "converted", slack |-> s,
+        inst |-> [I EXCEPT !.vars = [ x \in DOMAIN @ \cup {s} |-> IF x = s THEN NewVar("integer", [lo |-> Zero, hi |-> R(-RCeil(sh.h.lo))], "ommx.slack", <<c>>) ELSE @[x] ],
+                           !.cons[c] = [@ EXCEPT !.f = PAdd(@, PScale(PVar(s), RDiv(One, sh.a))), !.eq = "eq"]]]
+
 \* value set of a linear expression with integer coefficients over all 0/1 assignments of its variables
 RECURSIVE SubsetSums(_,_)
 SubsetSums(cs, acc) == IF cs = <<>> THEN acc ELSE SubsetSums(Tail(cs), acc \cup { s + Head(cs) : s \in acc })
